@@ -29,8 +29,14 @@
   `GM.Props.C16E2E.convertf_events_are_abstraction` states that the (labels, events) GM.Props.C16 speaks about are these.
 
   Run-time checks (`guard`) and outcomes (`GM.Convert.Err`) are those of GM.Model.Convert. Additional DOMAIN MONITOR (not Go
-  code): a node that is an `*ast.Footnote` but not a child of the list in the final block tree (it would render with
-  `Index` −1, which GM.Kind.footnote cannot say) answers `value pre` (`blockKindF`). Never answered in the tie. Core Lean only.
+  code; never answered in the tie — the C16 theorems hold of every document the model converts, that it converts is the tie's
+  and C01's business): `value pre` for an `*ast.Footnote` that is not a child of the FootnoteList in the final block tree (it
+  would render with `Index` −1), for a child of the list that is no Footnote, for a Footnote / the list below a definition,
+  for a list deeper in the tree than the store is large (`tagIn`, `treeOfF`, `blockKindF`), for a FootnoteLink that points at
+  no definition of the list (`inlineTreeF`); `blocks pre` when the FootnoteList is in the tree more than once, or — with a list
+  in the context — node 0 is not the plain Document any more (`parsePhases`).
+  With them the AST shape `shapeOKB` holds of every tree in front of the transformer BY CONSTRUCTION
+  (GM.Props.C16E2E.shape_always_ok). Core Lean only.
 -/
 import GM.Model.Convert
 import GM.Model.ExtFootnoteX
@@ -289,11 +295,6 @@ inductive FTag
   | stray
   deriving DecidableEq, Repr
 
-/-- position of `id` in `l` counted from `k` -/
-def posIn (id : Nat) : List Nat → Nat → Option Nat
-  | [], _ => none
-  | a :: rest, k => if a == id then some k else posIn id rest (k + 1)
-
 /-- the children of the FootnoteList at the end of the block phase: the definitions in `Close` order -/
 def listKids (f : FS) (st : St) : List Nat :=
   match f.list with
@@ -303,21 +304,53 @@ def listKids (f : FS) (st : St) : List Nat :=
 /-- the `Ref`s of the list's children: the `labels` of GM.Model.Footnote -/
 def labelsOf (f : FS) (st : St) : List Bytes := (listKids f st).map f.refOf
 
-def tagOf (f : FS) (kids : List Nat) (id : Nat) : FTag :=
-  if f.list == some id then .list
-  else match posIn id kids 0 with
-    | some k => .footnote k
-    | none => if f.isFn id then .stray else .plain
+/-- where the walk over the store is: outside the list, at the `i`-th child of the list, below a definition -/
+inductive Mode
+  | body
+  | noteRoot (i : Nat)
+  | note
+  deriving DecidableEq, Repr
+
+/-- the tag of the node `id` met in mode `m`. DOMAIN MONITORS (`stray`; docTreeF answers `value pre`): an `*ast.Footnote`
+    outside the list, a child of the list that is no Footnote, a Footnote / the FootnoteList below a definition. -/
+def tagIn (f : FS) (m : Mode) (id : Nat) : FTag :=
+  match m with
+  | .body => if f.list == some id then .list else if f.isFn id then .stray else .plain
+  | .noteRoot i => if f.isFn id then .footnote i else .stray
+  | .note => if f.list == some id || f.isFn id then .stray else .plain
+
+def FTag.isList : FTag → Bool
+  | .list => true
+  | _ => false
 
 inductive FTree
   | node (tag : FTag) (n : Blocks.Node) (children : List FTree)
 
-/-- GM.Blocks.treeOf with the tags -/
-def treeOfF (f : FS) (kids : List Nat) (nodes : List Blocks.Node) : Nat → Nat → FTree
-  | 0, id => .node (tagOf f kids id) (nodes.getD id default) []
-  | fuel + 1, id =>
+/-- `g i c` for the children `c` with their positions `i`, counted from `k` -/
+def mapIdxFrom (g : Nat → Nat → FTree) : Nat → List Nat → List FTree
+  | _, [] => []
+  | k, c :: rest => g k c :: mapIdxFrom g (k + 1) rest
+
+/-- GM.Blocks.treeOf with the tags: the children of the FootnoteList are the definitions `0, 1, …` in child order, what
+    lies below a definition is walked in mode `note`. Out of fuel (the tree is deeper than the store is large) at a
+    FootnoteList that has children: `stray` (monitor). -/
+def treeOfF (f : FS) (nodes : List Blocks.Node) : Nat → Mode → Nat → FTree
+  | 0, m, id =>
     let n := nodes.getD id default
-    .node (tagOf f kids id) n (n.children.map (treeOfF f kids nodes fuel))
+    .node (if (tagIn f m id).isList && !n.children.isEmpty then .stray else tagIn f m id) n []
+  | fuel + 1, m, id =>
+    let n := nodes.getD id default
+    if (tagIn f m id).isList then .node .list n (mapIdxFrom (fun i c => treeOfF f nodes fuel (.noteRoot i) c) 0 n.children)
+    else .node (tagIn f m id) n (n.children.map (treeOfF f nodes fuel (match m with | .body => .body | _ => .note)))
+
+mutual
+/-- the number of FootnoteList nodes of the tree -/
+def FTree.listCount : FTree → Nat
+  | .node tag _ cs => (if tag.isList then 1 else 0) + FTree.listCountL cs
+def FTree.listCountL : List FTree → Nat
+  | [] => 0
+  | t :: rest => t.listCount + FTree.listCountL rest
+end
 
 /-! ### phase 2 + the tree in front of the AST transformer (GM.Convert.docTree with the tags) -/
 
@@ -334,17 +367,17 @@ mutual
 /-- GM.Convert.inlineTree; with the extension on a FootnoteLink is decoded. IN FRONT OF THE TRANSFORMER its first field
     holds the position `k` of the definition it resolved to (not yet the `Index`); `RefCount = RefIndex = 0` as
     `ast.NewFootnoteLink` leaves them -/
-def inlineTreeF (on : Bool) (src : Bytes) : GM.Inl.Node → Except Panic GM.Node
+def inlineTreeF (on : Bool) (n : Nat) (src : Bytes) : GM.Inl.Node → Except Panic GM.Node
   | .text seg soft hard raw => do
     let v ← seg.value src
     pure (.mk (.text v soft hard raw false) none [])
-  | .codeSpan kids => do pure (.mk .codeSpan none (← inlineTreesF on src kids))
+  | .codeSpan kids => do pure (.mk .codeSpan none (← inlineTreesF on n src kids))
   | .emphasis lv kids =>
     match (if on then fnLinkPos? lv else none) with     -- decoded only when the parser that builds it is registered
-    | some k => pure (.mk (.footnoteLink k 0 0) none [])
-    | none => do pure (.mk (.emphasis lv.toNat) none (← inlineTreesF on src kids))
+    | some k => if k < n then pure (.mk (.footnoteLink k 0 0) none []) else throw .pre   -- monitor: no such definition
+    | none => do pure (.mk (.emphasis lv.toNat) none (← inlineTreesF on n src kids))
   | .link im d t kids => do
-    let cs ← inlineTreesF on src kids
+    let cs ← inlineTreesF on n src kids
     pure (.mk (if im then .image d t else .link d t) none cs)
   | .autoLink email seg => do
     let v ← seg.value src
@@ -352,11 +385,11 @@ def inlineTreeF (on : Bool) (src : Bytes) : GM.Inl.Node → Except Panic GM.Node
   | .rawHTML segs => do pure (.mk (.rawHTML (← segValues src segs)) none [])
   | .delim _ _ => pure (.mk .other none [])
   | .label _ _ _ => pure (.mk .other none [])
-def inlineTreesF (on : Bool) (src : Bytes) : List GM.Inl.Node → Except Panic (List GM.Node)
+def inlineTreesF (on : Bool) (n : Nat) (src : Bytes) : List GM.Inl.Node → Except Panic (List GM.Node)
   | [] => pure []
-  | n :: rest => do
-    let t ← inlineTreeF on src n
-    let ts ← inlineTreesF on src rest
+  | x :: rest => do
+    let t ← inlineTreeF on n src x
+    let ts ← inlineTreesF on n src rest
     pure (t :: ts)
 end
 
@@ -365,8 +398,8 @@ end
 def blockKindF (tag : FTag) (src : Bytes) (n : Blocks.Node) : Except Panic GM.Kind :=
   match tag with
   | .plain => blockKind src n
-  | .list => pure .footnoteList
-  | .footnote k => pure (.footnote k)
+  | .list => if n.lines.isEmpty then pure .footnoteList else throw .pre        -- monitor: a FootnoteList has no lines
+  | .footnote k => if n.lines.isEmpty then pure (.footnote k) else throw .pre  -- monitor: a Footnote has no lines
   | .stray => throw .pre
 
 mutual
@@ -376,7 +409,7 @@ def docTreeF (on guard : Bool) (refs : Option (List Bytes)) (env : GM.Inl.Env) (
   | .node tag n cs => do
     let bs ← docTreesF on guard refs env src cs
     let kids ← inlinePhaseF on guard refs env src n
-    let is ← liftErr .value (inlineTreesF on src kids)
+    let is ← liftErr .value (inlineTreesF on (refs.getD []).length src kids)
     let k ← liftErr .value (blockKindF tag src n)
     pure (.mk k none (bs ++ is))
 def docTreesF (on guard : Bool) (refs : Option (List Bytes)) (env : GM.Inl.Env) (src : Bytes) :
@@ -493,11 +526,18 @@ def finishDoc (hasList : Bool) (tr : GM.Footnote.Transformed) (t : GM.Node) : GM
 
 /-! ### the composition -/
 
+/-- DOMAIN MONITORS on the block phase's result (not Go code; never true in the tie): the FootnoteList is in the tree more
+    than once; or, with a FootnoteList in the context, node 0 is not the plain Document any more -/
+def monitorFires (f : FS) (st : St) (ft : FTree) : Bool :=
+  decide (ft.listCount > 1) ||
+    (f.list.isSome && !(tagIn f .body 0 == .plain && (st.nodes.getD 0 default).kind == .document))
+
 /-- the state of the block phase and the tree in front of the AST transformer -/
 def parsePhases (on guard : Bool) (uc : List (Nat × (Bool × Bool))) (src : Bytes) : Except Err (FS × St × GM.Node) := do
   let (f, st) ← liftErr .blocks (blockPhaseF on guard src)
   let env : GM.Inl.Env := { refs := st.pc.refs, uc := uc }
-  let ft := treeOfF f (listKids f st) st.nodes st.nodes.length 0
+  let ft := treeOfF f st.nodes st.nodes.length .body 0
+  if monitorFires f st ft then throw (.blocks .pre)
   let refs := if f.list.isSome then some (labelsOf f st) else none
   let t ← docTreeF on guard refs env src ft
   pure (f, st, t)
@@ -594,12 +634,12 @@ end
 
 /-- WELL-FORMEDNESS HYPOTHESIS of the end-to-end theorems (evaluated by the tie on every document: flag `c`): the tree in front
     of the transformer holds at most one FootnoteList; its children are exactly the definitions `0 … labels.length − 1` in
-    order; no Footnote / FootnoteList anywhere else; the root is the Document; no FootnoteBacklink yet; every FootnoteLink
+    order; no Footnote / FootnoteList anywhere else; the root is the Document (without a list: no Footnote / FootnoteList); no FootnoteBacklink yet; every FootnoteLink
     points at a definition of the list; without a FootnoteList in the context there is neither a list node nor a
     FootnoteLink. Facts about the block driver, the AST and the inline loop (every opened Footnote is closed, i.e. moved into
     the one list; child lists are duplicate-free; the default parsers build no FootnoteLink), not about the numbering. -/
 def shapeOKB (hasList : Bool) (labels : List Bytes) (t : GM.Node) : Bool :=
-  bodyOKB t && isDocKind t.kind && noBacksB t &&
+  bodyOKB t && (if hasList then isDocKind t.kind else !isFootKind t.kind) && noBacksB t &&
     (match listsOf t with
      | [] => true
      | [cs] => notesOKB 0 cs && cs.length == labels.length
